@@ -355,6 +355,35 @@ def gen_file(path, rel):
                     a, b = span(r_.value, starts, bsrc)
                     emit(a, b, "None", "retnone", r_)
 
+    # the wrong variable: a local / parameter read replaced by another
+    # local / parameter of the same function (every third site, to bound
+    # the sweep)
+    k_ = 0
+    for fn_ in ast.walk(tree):
+        if not isinstance(fn_, (ast.FunctionDef, ast.AsyncFunctionDef)):
+            continue
+        bound = {a_.arg for a_ in fn_.args.args + fn_.args.kwonlyargs
+                 if a_.arg not in ("self", "cls")}
+        for x in ast.walk(fn_):
+            if isinstance(x, ast.Name) and isinstance(x.ctx, ast.Store):
+                bound.add(x.id)
+        names = sorted(bound)
+        if len(names) < 2:
+            continue
+        for x in ast.walk(fn_):
+            if not (isinstance(x, ast.Name) and isinstance(x.ctx, ast.Load)
+                    and x.id in bound) or id(x) in annot:
+                continue
+            par = getattr(x, "_parent", None)
+            if isinstance(par, ast.Call) and par.func is x:
+                continue
+            k_ += 1
+            if k_ % 3:
+                continue
+            a, b = span(x, starts, bsrc)
+            other = names[(names.index(x.id) + 1) % len(names)]
+            emit(a, b, other, "nameswap", x)
+
     # string literals: generated-code fragments and regular expressions
     FRAG = [(r" is not ", " is "), (r" is not ", " != "), (r" is ", " == "),
             (r" == ", " != "), (r" != ", " == "), (r" and ", " or "),
